@@ -407,6 +407,20 @@ def run_c09(ck, ctx):
     if not want <= got:
         ck.violation('cli_illegal', {'what': 'illegal words are not reported at their offsets', 'want': sorted(want), 'got': sorted(got),
                                      'input_hex': data.hex(), 'args': 'check all its'})
+    # ... also when the illegal identifier is 0xFF and the word is the LAST of its packet (data format 2): together with up to 8 bytes
+    # of 0xFF padding the trailing run stays below 10, so the word is still cut and must be classified and reported (seeded C09-m5:
+    # the padding run stripped unconditionally, which eats the identifier byte)
+    for npad in (0, 3, 6, 8):
+        pkf = [G.Pkt(dict(orbit=9, page=0), [G.ihw(7), G.tdh(trig=3, orbit=9), G.dw(0x20, bytes([0xE0, 1]) + bytes(7)), G.tdt(1)]),
+               G.Pkt(dict(orbit=9, page=1, stop=1), [bytes(9) + b'\xFF'], pad=npad)]
+        dataf = G.encode(pkf)
+        for mode in (['check', 'sanity', 'its'], ['check', 'all', 'its']):
+            r = L.run_cli(mode, dataf)
+            ck.case(('cli_illegal_ff_last', npad, tuple(mode))); ck.count('cli_illegal_ff_last')
+            at = pkf[0].size() + 64
+            if not any(e[0] == at and e[1] == 'E992' for e in r.errors):
+                ck.violation('cli_illegal', {'what': 'a last word with identifier 0xFF followed by %d padding bytes is not reported at that word' % npad,
+                                             'offset': at, 'got': sorted((e[0], e[1]) for e in r.errors), 'input_hex': dataf.hex(), 'args': ' '.join(mode)})
     # the state is carried across packets and heartbeat frames: an HBF that ends inside a packet (no TDT, no DDW0)
     # leaves the link in the data phase, where the IHW that opens the next HBF is not a legal word
     for mode in (['check', 'sanity', 'its'], ['check', 'all', 'its']):
